@@ -356,7 +356,9 @@ class ASPConverter(Converter[ASPProgram,
             return ASPAngleOperation(operation.operation, *operands)
         if self._is_list_of_aggregates(operands) and not negated_between:
             return self._convert_operation_of_list_of_aggregate(operation, operands)
-        if len([operand for operand in operands if isinstance(operand, ASPAggregate)]) > 1:
+        aggregates = [operand for operand in operands if isinstance(operand, ASPAggregate)]
+        if len(aggregates) > 1 or (negated_between and aggregates and not isinstance(operands[1], ASPAggregate)):
+            # also 'not a <= x <= #count{..}': in a chained comparison the solver accepts an aggregate in the middle only
             return self._convert_operation_with_aggregate_values(operation, operands, negated_between)
         if not is_arithmetic_operator(operation.operation) and len(operands) == 3 and not negated_between \
                 and not isinstance(operands[1], ASPAggregate) and operation.operation < Operators.CONJUNCTION:
